@@ -716,7 +716,11 @@ class FileScanHelper:
 
         if new_tokens[-1].is_pragma:
             pragma_token = cast(PragmaToken, new_tokens[-1])
-            for pragma_line_number in sorted(pragma_token.pragma_lines.keys())[::-1]:
+            # Move the pragmas starting at the end they are moving towards, so that a
+            # moved pragma never lands on a line number that has yet to be moved.
+            for pragma_line_number in sorted(
+                pragma_token.pragma_lines.keys(), reverse=line_number_delta > 0
+            ):
                 if pragma_line_number > next_replacement.end_token.line_number:
                     pragma_token.adjust_pragma_line_number(
                         pragma_line_number, pragma_line_number + line_number_delta
